@@ -402,6 +402,25 @@ class GateValues(Model):
     def m_iter(self, it):
         raise Unsupported('iteration over all gates of an abstract circuit needs an invariant')
 
+    # for g in gates.values() under a loop invariant: the Gate objects of an arbitrary enumeration of the keys
+    prefix = []
+
+    def enumeration(self, it):
+        self._it = it
+        self._gm = self.h.obj.fields['_gates']
+        self._S = self.h.S
+        return self._gm.enumeration(it.ctx)
+
+    @property
+    def n(self):
+        return self._S.size
+
+    def elem(self, i):
+        return make_gate_obj(self._it, self._S, self._gm._enum[0](i))
+
+    def concrete_len(self, it=None):
+        return None
+
 
 class IntMap(Model):
     """dict[label -> int] in functional form (in-degree map of top_sort)"""
@@ -790,6 +809,10 @@ class LabelList(Model):
         n, elem, cnt = self._get(self.h.S)
         return AbsLabelSeq(it.ctx, n=n, elem=elem, count=cnt, assume=False)
 
+    def m_mutable_copy(self, it):
+        n, elem, cnt = self._get(self.h.S)
+        return _mutable_copy(n, elem, cnt)
+
     def m_listcomp_filter_neq(self, it, x):
         """[e for e in self if e != x]  ->  every occurrence of x removed (order of the rest kept)"""
         n, elem, cnt = self._get(self.h.S)
@@ -799,6 +822,110 @@ class LabelList(Model):
         it.ctx.assume(seq.n == n - cnt(xt))
         it.ctx.assume(z3.ForAll([l], seq.count(l) == z3.If(l == xt, 0, cnt(l))))
         return seq
+
+
+class MutLabelList(Model):
+    """a local python list of labels of symbolic length: n, positional view elem(i), count view count(l); supports
+    `in`, len, remove(x) (first occurrence), append; iteration only under a loop invariant"""
+    prefix = []
+
+    def __init__(self, n, elem, count):
+        self.n, self.elem, self.count = n, elem, count
+
+    def concrete_len(self, it=None):
+        return None
+
+    def assume_rep(self, it):
+        """representation facts of every python list (count view vs. length / positions)"""
+        l, i = z3.Const('l!mr', LabelSort), z3.Int('i!mr')
+        n, elem, count = self.n, self.elem, self.count
+        it.ctx.assume(n >= 0)
+        it.ctx.assume(z3.ForAll([l], z3.And(count(l) >= 0, count(l) <= n)))
+        it.ctx.assume(z3.ForAll([i], z3.Implies(z3.And(i >= 0, i < n), count(elem(i)) >= 1)))
+
+    def m_len(self, it):
+        return Sym(self.n)
+
+    def m_contains(self, it, x):
+        return _simp(self.count(it.label_term(x)) > 0)
+
+    def m_getattr(self, it, name):
+        if name == 'remove':
+            def remove(x):
+                xt = it.label_term(x)
+                if not it.ctx.choose(_simp(self.count(xt) > 0)):
+                    it.raise_('ValueError', 'list.remove(x): x not in list')
+                n, elem, count = self.n, self.elem, self.count
+                p = it.ctx.fresh(I, 'rmpos')
+                j = z3.Int('j!rm')
+                it.ctx.assume(z3.And(p >= 0, p < n, elem(p) == xt))                                   # first occurrence of x
+                it.ctx.assume(z3.ForAll([j], z3.Implies(z3.And(j >= 0, j < p), elem(j) != xt)))
+                self.n = n - 1
+                self.elem = lambda i: z3.If(i < p, elem(i), elem(i + 1))
+                self.count = lambda l: count(l) - z3.If(l == xt, 1, 0)
+                self.assume_rep(it)
+            return Native('list.remove', remove)
+        if name == 'append':
+            def append(x):
+                xt = it.label_term(x)
+                n, elem, count = self.n, self.elem, self.count
+                self.n = n + 1
+                self.elem = lambda i: z3.If(i == n, xt, elem(i))
+                self.count = lambda l: count(l) + z3.If(l == xt, 1, 0)
+            return Native('list.append', append)
+        raise Unsupported('local label list: .' + name)
+
+    def m_getitem(self, it, k):
+        kt = it.int_term(k)
+        if not it.ctx.choose(_simp(z3.And(kt >= -self.n, kt < self.n))):
+            it.raise_('IndexError', 'list index out of range')
+        return Sym(self.elem(z3.simplify(z3.If(kt < 0, kt + self.n, kt))))
+
+    def m_iter(self, it):
+        raise Unsupported('iteration over a label list of symbolic length needs a loop invariant')
+
+
+class TailList(Model):
+    """a python list = concrete items followed by the first k elements of src (a MutLabelList that is no longer
+    modified): the closed form of `for e in src: new_list.append(e)`. append(x) is only accepted for x = src[k]."""
+    prefix = []
+
+    def __init__(self, items, src, k):
+        self.items, self.src, self.k = list(items), src, k
+
+    @property
+    def n(self):
+        return z3.IntVal(len(self.items)) + self.k
+
+    def elem(self, i):
+        r = self.src.elem(i - len(self.items))
+        for j in range(len(self.items) - 1, -1, -1):
+            r = z3.If(i == j, self.items[j], r)
+        return r
+
+    def count_upto(self, l):
+        """count view, valid when k = len(src) (the whole source was appended)"""
+        return (z3.Sum([z3.If(x == l, 1, 0) for x in self.items]) if self.items else z3.IntVal(0)) + self.src.count(l)
+
+    count = count_upto
+
+    def concrete_len(self, it=None):
+        return None
+
+    def m_len(self, it):
+        return Sym(self.n)
+
+    def m_getattr(self, it, name):
+        if name == 'append':
+            def append(x):
+                it.ctx.check('appended-element-is-the-next-of-the-source', it.label_term(x) == self.src.elem(self.k))
+                self.k = self.k + 1
+            return Native('list.append', append)
+        raise Unsupported('list built from a symbolic tail: .' + name)
+
+
+def _mutable_copy(n, elem, count):
+    return MutLabelList(n, (lambda i, elem=elem: elem(i)), (lambda l, count=count: count(l)))
 
 
 class ListIndex:
@@ -1075,6 +1202,9 @@ class AbsLabelSeq(Model):
         n = z3.simplify(self.n)
         return n.as_long() if z3.is_int_value(n) else None
 
+    def m_mutable_copy(self, it):
+        return _mutable_copy(self.n, self.elem, self.count)
+
     def m_len(self, it):
         return Sym(self.n)
 
@@ -1118,13 +1248,14 @@ class ForallInDom(object):
         self.holder_of = holder_of
 
     def applies(self, it, env, iterable):
+        self.seq = iterable
         return isinstance(iterable, (AbsLabelSeq, OpsSeq)) and iterable.concrete_len(it) is None
 
     def havoc(self, it, env):
         pass
 
     def inv(self, it, env, k):
-        seq = env['gates']
+        seq = self.seq
         h = self.holder_of(it, env)
         i = z3.Int('i!chk')
         return [('prefix-in-dom', z3.ForAll([i], z3.Implies(z3.And(i >= 0, i < k), h.S.dom(seq.elem(i)))))]
@@ -1152,7 +1283,7 @@ def sync_fields(it, h):
                     r = z3.If(i == j, items[j], r)
                 return r
             cnt = lambda l, items=items: z3.Sum([z3.If(x == l, 1, 0) for x in items]) if items else z3.IntVal(0)
-        elif isinstance(v, (AbsLabelSeq, OpsSeq)):
+        elif isinstance(v, (AbsLabelSeq, OpsSeq, TailList, MutLabelList)):
             n, elem, cnt = v.n, v.elem, v.count
         else:
             raise Unsupported(f'{fld} replaced by {type(v).__name__}')
@@ -1164,9 +1295,11 @@ def sync_fields(it, h):
 
 
 def install_order_contracts(it):
-    """ASSUMED contracts of Circuit.order_inputs / order_outputs (bodies are bounded-only: utils.order_list):
-    the list is permuted (count view and length unchanged, positional view arbitrary), nothing else changes;
-    raises CircuitGateIsAbsentError when a requested label is not in the list (or requested more often than present)."""
+    """Contracts of Circuit.order_inputs / order_outputs used at call sites (rule R4). The bodies (incl. utils.order_list)
+    are verified against exactly these clauses by C02/order_inputs/*, C02/order_outputs/*, C02/order_list/* for a requested
+    prefix of up to 3 (resp. 2) labels and lists of any length; longer requests at call sites rely on the same clauses unproved:
+    the list is permuted (count view and length unchanged, requested labels first, every position holds a label of the old
+    list), nothing else changes; raises CircuitGateIsAbsentError exactly when a label is requested more often than present."""
     def make(which):
         def handler(it_, fv, args, kwargs):
             self_, labels = _bind3(args, kwargs, ('inputs' if which == 'in' else 'outputs',))[:2]
